@@ -462,21 +462,22 @@ class NetworkService(ModelElement):
         link between them
         """
         assert(isinstance(ns, NetworkService))
-        # see if they peer
-        sp = self.topo.graph_model.get_nodes_on_shortest_path(node_a=self.node_id, node_z=ns.node_id)
-        # peering services are joined as service - port - link - port - service
-        if len(sp) != 5:
-            raise TopologyException(f"Network services {self.name} and {ns.name} do not peer!")
-        # a path of that length may also lead through a connected interface or through the components of one node:
-        # what is removed below must be the two service ports facing each other over a link
+        # peering services are joined as service - port - link - port - service, both ports being service ports.
+        # Look for that pair itself: the shortest path between the two services may be another one (a connected
+        # interface, the node or component that owns both services)
         gm = self.topo.graph_model
-        if ABCPropertyGraph.CLASS_Link not in gm.get_node_properties(node_id=sp[2])[0] or \
-                any(gm.get_node_properties(node_id=x)[1].get(ABCPropertyGraph.PROP_TYPE) != str(InterfaceType.ServicePort)
-                    for x in (sp[1], sp[-2])):
+
+        def service_ports(sid):
+            return [x for x in gm.get_all_ns_or_link_connection_points(link_id=sid)
+                    if gm.get_node_properties(node_id=x)[1].get(ABCPropertyGraph.PROP_TYPE) == str(InterfaceType.ServicePort)]
+        theirs = service_ports(ns.node_id)
+        facing = [(mine, other) for mine in service_ports(self.node_id)
+                  for other in (gm.find_peer_connection_points(node_id=mine) or []) if other in theirs]
+        if len(facing) == 0:
             raise TopologyException(f"Network services {self.name} and {ns.name} do not peer!")
         # remove ConnectionPoints and link between them
-        self.topo.graph_model.remove_cp_and_links(node_id=sp[1])
-        ns.topo.graph_model.remove_cp_and_links(node_id=sp[-2])
+        self.topo.graph_model.remove_cp_and_links(node_id=facing[0][0])
+        ns.topo.graph_model.remove_cp_and_links(node_id=facing[0][1])
         # update interface lists
         self._load_interfaces()
         ns._load_interfaces()
